@@ -522,7 +522,7 @@ class Inliner:
                 rep = self._hoist(st, cls_name, local_names)
             if rep is not None:
                 # the expansion may contain further helper calls
-                out.extend(self.run_body(rep, cls_name, local_names, depth + 1))
+                out.extend(_forward_pure(self.run_body(rep, cls_name, local_names, depth + 1)))
                 continue
             # recurse into compound statements
             for field in ("body", "orelse", "finalbody"):
@@ -570,6 +570,37 @@ class Inliner:
 
     def run_module(self, tree):
         tree.body = self.run_body(tree.body, None, set())
+
+
+def _forward_pure(stmts):
+    """`_inlN_x = <pure expr>` immediately followed by a statement that uses _inlN_x exactly once (anywhere, including the
+    header of a for / if) and nowhere else: substitute.  Also drops `pass` left over next to other statements."""
+    changed = True
+    while changed:
+        changed = False
+        for i in range(len(stmts) - 1):
+            a, b = stmts[i], stmts[i + 1]
+            if not (isinstance(a, ast.Assign) and len(a.targets) == 1 and isinstance(a.targets[0], ast.Name) and a.targets[0].id.startswith("_inl") and pure(a.value)):
+                continue
+            t = a.targets[0].id
+            total = sum(1 for st in stmts for n in ast.walk(st) if isinstance(n, ast.Name) and n.id == t)
+            uses = [n for n in ast.walk(b) if isinstance(n, ast.Name) and n.id == t and isinstance(n.ctx, ast.Load)]
+            if total != 2 or len(uses) != 1:
+                continue
+            # the names the pure value reads must not be rebound inside b before the use: only allow the use in b's header
+            header = [getattr(b, f) for f in ("test", "iter", "value") if hasattr(b, f)]
+            if not any(any(x is uses[0] for x in ast.walk(h)) for h in header if h is not None):
+                continue
+            stmts[i + 1] = _replace_node(b, uses[0], a.value)
+            del stmts[i]
+            changed = True
+            break
+    for st in stmts:
+        for field in ("body", "orelse", "finalbody"):
+            sub = getattr(st, field, None)
+            if isinstance(sub, list) and len(sub) > 1 and any(isinstance(x, ast.Pass) for x in sub):
+                setattr(st, field, [x for x in sub if not isinstance(x, ast.Pass)])
+    return stmts
 
 
 def _forward_temps(stmts):
@@ -908,6 +939,39 @@ def normalise_program(trees):
                     methods.pop(key)
                 else:
                     methods[key] = nh
+        if total:
+            # a new private helper that is no longer referenced anywhere (fully folded into its callers) is dropped, so that
+            # whole-program rules see the code where the pinned tree has it
+            imported = set()
+            for p2, t2 in trees.items():
+                if p2 == path:
+                    continue
+                for n in ast.walk(t2):
+                    if isinstance(n, ast.ImportFrom):
+                        imported |= {a.name for a in n.names}
+                    elif isinstance(n, ast.Attribute):
+                        imported.add(n.attr)
+            cand = {h.fn for h in list(helpers.values()) + list(methods.values())}
+            for fn_ in cand:
+                nm = fn_.name
+                if not nm.startswith("_") or nm in imported:
+                    continue
+                refs = 0
+                for n in ast.walk(tree):
+                    if n is fn_:
+                        continue
+                    if isinstance(n, ast.Name) and n.id == nm:
+                        refs += 1
+                    elif isinstance(n, ast.Attribute) and n.attr == nm:
+                        refs += 1
+                inside = sum(1 for n in ast.walk(fn_) if (isinstance(n, ast.Name) and n.id == nm) or (isinstance(n, ast.Attribute) and n.attr == nm))
+                if refs - inside == 0:
+                    for holder in ast.walk(tree):
+                        body = getattr(holder, "body", None)
+                        if isinstance(body, list) and fn_ in body:
+                            body.remove(fn_)
+                            if not body:
+                                body.append(ast.Pass())
         ast.fix_missing_locations(tree)
         if total:
             stats[path] = total
